@@ -58,7 +58,8 @@ type File struct {
 
 	readOpReader *ioext.CounterReadCloser
 	readOpWriter io.WriteCloser
-	readOffset   int64 // Position of the next read; can be behind the end of the file after a seek
+	readOffset   int64         // Position of the next read; can be behind the end of the file after a seek
+	readOpDone   chan struct{} // Closed when the restore operation feeding `readOpReader` has released the drive
 
 	writeBuf      cache.WriteCache
 	cleanWriteBuf func() error
@@ -225,6 +226,12 @@ func (f *File) closeWithoutLocking() error {
 		}
 	}
 
+	// Wait until the restore operation has noticed and released the drive; otherwise it would
+	// still be opening or closing the drive's reader while the next operation already uses it
+	if f.readOpDone != nil {
+		<-f.readOpDone
+	}
+
 	if f.writeBuf != nil {
 		if err := f.syncWithoutLocking(); err != nil {
 			return err
@@ -241,6 +248,7 @@ func (f *File) closeWithoutLocking() error {
 
 	f.readOpReader = nil
 	f.readOpWriter = nil
+	f.readOpDone = nil
 	f.writeBuf = nil
 
 	return nil
@@ -373,7 +381,11 @@ func (f *File) seekWithoutLocking(offset int64, whence int) (int64, error) {
 			BytesRead: 0,
 		}
 
+		done := make(chan struct{})
+
 		go func() {
+			defer close(done)
+
 			if err := f.readOps.Restore(
 				func(path string, mode fs.FileMode) (io.WriteCloser, error) {
 					return writer, nil
@@ -398,6 +410,7 @@ func (f *File) seekWithoutLocking(offset int64, whence int) (int64, error) {
 
 		f.readOpReader = reader
 		f.readOpWriter = writer
+		f.readOpDone = done
 	}
 
 	// Skip forward to the new position; seeking behind the end of the file is fine, reads there return EOF
@@ -551,7 +564,11 @@ func (f *File) Read(p []byte) (n int, err error) {
 			BytesRead: 0,
 		}
 
+		done := make(chan struct{})
+
 		go func() {
+			defer close(done)
+
 			if err := f.readOps.Restore(
 				func(path string, mode fs.FileMode) (io.WriteCloser, error) {
 					return writer, nil
@@ -576,6 +593,7 @@ func (f *File) Read(p []byte) (n int, err error) {
 
 		f.readOpReader = reader
 		f.readOpWriter = writer
+		f.readOpDone = done
 	}
 
 	w := &bytes.Buffer{}
